@@ -15,9 +15,9 @@ ROOT = pathlib.Path("/verif")
 MODS = {
     "C01": "WriterSpec, WriterImpl", "C02": "ExportSpec",
     "C03": "FilterSpec, FilterImpl, FilterTrace",
-    "C04": "HierarchySpec, HierarchyTrace",
+    "C04": "HierarchySpec, HierarchyImpl, HierarchyTrace",
     "C05": "EmodulusSpec, EmodulusTrace",
-    "C06": "AncillarySpec, ReadOrderSpec", "C07": "BasinSpec",
+    "C06": "AncillarySpec, ReadOrderSpec", "C07": "BasinSpec, BasinImpl",
     "C08": "CopierSpec", "C09": "SplitJoinSpec",
     "C10": "TaskAtomicSpec, TaskAtomicTrace", "C11": "MetaSpec, MC_MetaPipes",
     "C12": "StatsSpec, StatsTrace", "C13": "CheckerSpec",
